@@ -17,7 +17,6 @@ func checkC01(c *fw.Ctx) {
 	c.Explanation = "C01 (static): the validity gate of CanonicalJSON and the version/enforcement gates of EnforcedCanonicalJSON are decided by dominance on SSA; the enforcement column of the room-version table is compared exhaustively with the specification; untrusted parsers are checked to apply the enforcement to the raw input before rewriting it; object keys are shown to be sorted on the decoded key and emitted from the raw token (no decoded string reaches the output buffer); the enforcement visitor's verdict flag is shown to be monotone (only ever lowered)."
 	c.NotDecidedClause("value preservation, uniqueness across presentations and idempotence on the infinite JSON language (byte-level state machines in CompactJSON/compactUnicodeEscape: value properties)")
 	c.NotDecidedClause("shortest-escape minimality and the -0 rule of CompactJSON (known, not decided here: -0.5 loses its sign)")
-	c.NotDecidedClause("the numeric predicate inside verifyEnforcedCanonicalJSON (known, not decided here: 0.0, 0e5 and 1E5 are accepted)")
 
 	// the comparator rule reports positive evidence only (the compared field is stored from
 	// something that is not the decoded key), so it may also report on the inlined view, where
@@ -439,6 +438,7 @@ func checkEnforceFlag(c *fw.Ctx) {
 	}
 	c.SawFn(short)
 	checkRangeOperand(c, fn)
+	checkNumericPredicate(c, fn)
 	// verdict flags: booleans of the enforcement function (or of an unexported helper it calls,
 	// e.g. a recursive visitor) that are captured by a visitor closure
 	nflags := 0
